@@ -1167,6 +1167,8 @@ def check_C15(rep, fl):
     import props_sketch
     import props_store as _ps
     _ps.keep_sites(rep, fl, props_sketch.check_tinylfu, ("increment", "estimate"))
+    # ... which needs a doorkeeper that recognises what it was given (contains probes the positions add set)
+    _ps.keep_rules(rep, fl, props_sketch.check_C14, {"R14.1"}, rename="R15.4")
     # "accounted exactly once as kept or dropped in the metrics": the counters themselves add and read correctly
     import props_store
     props_store.keep_sites(rep, fl, check_metrics_core, ("add", "Metrics::add forwards", "get sums stripes", "get_gets_dropped", "get_gets_kept", "installed once"))
